@@ -129,3 +129,17 @@ Definition sinit (genomes : list taxon) : sstate :=
 Definition extant_listing (t : stree) (s : sstate) : list taxon := filter (is_leaf t) (ss_genomes s).
 Definition ancestral_listing (t : stree) (s : sstate) : list taxon :=
   filter (fun p => negb (is_leaf t p)) (ss_genomes s).
+
+(* the genome lookups on the current state (Ham.get_ancestral_genome_by_taxon / _by_name, get_extant_genome_by_name):
+   a scan over the nodes that carry a genome of that kind *)
+Definition s_anc_by_taxon (t : stree) (s : sstate) (p : taxon) : result taxon :=
+  if mem_tax p (ss_genomes s) && negb (is_leaf t p) then Ok p else Err KeyError.
+
+Definition first_named (t : stree) (n : string) (l : list taxon) : result taxon :=
+  match filter (fun p => String.eqb (tax_name t p) n) l with
+  | p :: _ => Ok p
+  | [] => Err KeyError
+  end.
+
+Definition s_anc_by_name (t : stree) (s : sstate) (n : string) : result taxon := first_named t n (ancestral_listing t s).
+Definition s_ext_by_name (t : stree) (s : sstate) (n : string) : result taxon := first_named t n (extant_listing t s).
